@@ -275,6 +275,7 @@ func (l *Lab) CompileAll(withVet bool) (unattributed string) {
 			l.Failed[dir] = append(l.Failed[dir], d)
 		}
 	}
+	l.propagateFailures()
 	if withVet {
 		// vet only packages that compile; failing ones already have a verdict
 		var ok []string
@@ -304,6 +305,53 @@ func (l *Lab) CompileAll(withVet bool) (unattributed string) {
 	}
 	return strings.Join(un, "\n")
 }
+
+// propagateFailures marks every lab package that imports a lab package which does not build as failing too
+// (the compiler reports only the package where the error is), so the binary leaves both out and the
+// importing package's case gets the dependency's diagnostic.
+func (l *Lab) propagateFailures() {
+	imports := map[string][]string{}
+	for _, d := range l.Dirs() {
+		ents, err := os.ReadDir(filepath.Join(l.Dir, d))
+		if err != nil {
+			continue
+		}
+		seen := map[string]bool{}
+		for _, e := range ents {
+			if e.IsDir() || !strings.HasSuffix(e.Name(), ".go") {
+				continue
+			}
+			src, err := os.ReadFile(filepath.Join(l.Dir, d, e.Name()))
+			if err != nil {
+				continue
+			}
+			for _, m := range labImportRe.FindAllStringSubmatch(string(src), -1) {
+				if m[1] != d && !seen[m[1]] {
+					seen[m[1]] = true
+					imports[d] = append(imports[d], m[1])
+				}
+			}
+		}
+	}
+	for changed := true; changed; {
+		changed = false
+		for d, deps := range imports {
+			if len(l.Failed[d]) > 0 {
+				continue
+			}
+			for _, dep := range deps {
+				if len(l.Failed[dep]) > 0 {
+					first := l.Failed[dep][0]
+					l.Failed[d] = append(l.Failed[d], BuildError{File: first.File, Line: first.Line, Msg: "imported package " + dep + " does not build: " + first.Msg, Tool: first.Tool})
+					changed = true
+					break
+				}
+			}
+		}
+	}
+}
+
+var labImportRe = regexp.MustCompile(`"lab/(gen/[A-Za-z0-9_]+)"`)
 
 // BuildBinary writes main.go importing every package that compiled and builds the lab binary.
 func (l *Lab) BuildBinary(race bool) (string, error) {
